@@ -151,7 +151,7 @@ def javaWantGetter (c : JavaCfg) (f : FieldD) : WantMethod :=
 /-- thrown error domains are listed by their simple class names, for synchronous methods only -/
 def javaWantThrows (c : JavaCfg) (m : MethodD) : List String :=
   match m.throwing with
-  | some l => if m.isAsync then [] else l.map (fun e => match e with | .user eu => convert c.tyStyle eu.name | e => javaRefName c e)
+  | some l => if m.isAsync then [] else l.map (fun e => javaTypename c e)
   | none => []
 
 def javaWantMethod (c : JavaCfg) (m : MethodD) : WantMethod :=
